@@ -124,6 +124,9 @@ static void build_axis()
     for (double d : v) { axis.push_back((a_real)d); }
     std::sort(axis.begin(), axis.end());
     axis.erase(std::unique(axis.begin(), axis.end()), axis.end());
+    // a negative zero coordinate (what multiplying or dividing a real number by the imaginary unit produces): the point (-0, y) lies on the
+    // imaginary axis, away from every cut of arg / log / pow, and its argument is +-pi/2 by the sign of y
+    axis.push_back((a_real)-0.0);
 }
 
 static std::map<std::string, double> worst;
